@@ -369,3 +369,56 @@ def kleene(facts: CppFacts):
     res.samples = ["And/Or: 9 operand combinations each = Kleene tables", "Choice: 12 combinations", "MaybeDo strict"]
     res.analysed = [ARITH, MAYBE]
     return res
+
+
+def eqtable(facts: CppFacts, templates):
+    """R-EQTABLE (C20): the per-field clause of the generated Equals()/UncheckedEquals() is a sequence of
+    `if (<condition>) return false;` over `has_x` of both views (Maybe<bool>) and the field views' own Equals.  It is
+    evaluated with the Maybe calculus over the whole domain — has_x of either side unknown/false/true, fields
+    equal or not — and must say "not equal" exactly when a presence is unknown (checked form only), the presences
+    differ, or both are present and the field views differ; and it must be symmetric in the two views."""
+    res = RuleResult("R-EQTABLE")
+    ax = _axioms(facts)
+    calc = Calculus(ax, {})
+    U, F, T = MaybeVal(False, None), MaybeVal(True, False), MaybeVal(True, True)
+    nm = {id(U): "unknown", id(F): "absent", id(T): "present"}
+    for tname, eqcall, domain in (("equals_method_test", "Equals", (U, F, T)), ("unchecked_equals_method_test", "UncheckedEquals", (F, T))):
+        if tname not in templates:
+            raise AnalysisError(f"template {tname} vanished")
+        text = re.sub(r"//[^\n]*", "", templates[tname]["text"])
+        text = text.replace("emboss_reserved_local_other.has_${field}", "OTHER").replace("has_${field}", "MINE")
+        text = re.sub(r"\$\{field\}\s*\.\s*" + eqcall + r"\s*\(\s*emboss_reserved_local_other\s*\.\s*\$\{field\}\s*\)", "EQ", text)
+        if "${field}" in text:
+            raise AnalysisError(f"{tname}: unexpected use of ${{field}} left after normalisation")
+        conds = re.findall(r"if\s*\(((?:[^()]|\((?:[^()]|\([^()]*\))*\))*)\)\s*return\s+false\s*;", text)
+        rest = re.sub(r"if\s*\(((?:[^()]|\((?:[^()]|\([^()]*\))*\))*)\)\s*return\s+false\s*;", "", text).strip()
+        if not conds or rest:
+            raise AnalysisError(f"{tname}: not a sequence of `if (...) return false;` ({rest[:40]!r})")
+        try:
+            parsed = [_parse(c) for c in conds]
+        except Bad as b:
+            raise AnalysisError(f"{tname}: {b}")
+        table = {}
+        for mine in domain:
+            for other in domain:
+                for eq in (False, True):
+                    res.instances += 1
+                    try:
+                        not_equal = any(calc._bool(calc.ev(c, {"MINE": mine, "OTHER": other, "EQ": eq})) for c in parsed)
+                    except Bad as b:
+                        raise AnalysisError(f"{tname}: {b}")
+                    table[(nm[id(mine)], nm[id(other)], eq)] = not_equal
+                    want = (mine == U or other == U) or (mine != other) or (mine == T and not eq)
+                    if not_equal != want:
+                        res.add(f"{tname}|{nm[id(mine)]}|{nm[id(other)]}|{'eq' if eq else 'ne'}", f"{tname}: with this view's field "
+                                f"{nm[id(mine)]}, the other's {nm[id(other)]}, and the field views {'equal' if eq else 'different'}, the "
+                                f"structures compare {'unequal' if not_equal else 'equal'}; logical equality says the opposite",
+                                "compiler/back_end/cpp/generated_code_templates", templates[tname]["line"], tname)
+        for (a, b, eq), v in table.items():
+            if table[(b, a, eq)] != v:
+                res.add(f"{tname}|asymmetric|{a}|{b}", f"{tname}: a.Equals(b) and b.Equals(a) differ for presences ({a}, {b})",
+                        "compiler/back_end/cpp/generated_code_templates", templates[tname]["line"], tname)
+                break
+    res.samples = ["equals_method_test: 18 cases; unchecked_equals_method_test: 8 cases"]
+    res.analysed = ["compiler/back_end/cpp/generated_code_templates", MAYBE]
+    return res
